@@ -1085,6 +1085,15 @@ WITNESS_FONTS = {
     # repaired (fix: ReverseChainSingleSubst ... backtrack does not match): kept as a regression witness, class None
     "reverse-chain-concat": ({"num_glyphs": 7, "cmap": _ABC, "gsub": {"features": [{"tag": "ccmp", "lookups": [0]}], "lookups": [
         {"type": 8, "flag": 0, "subtables": [{"coverage": [3], "backtrack": [[1]], "lookahead": [], "subst": [6]}]}]}}, "abc"),
+    # repaired (fix: match_input left end_position unset when it declined in the ligature-component rules): regression witness,
+    # class None.  b (marks skipped) c -> ligature 5, the skipped mark d becomes component 1 of it; a (ligatures skipped) d -> 6
+    # declines AT that d because it belongs to another ligature.  Before the repair nothing was flagged and the even text
+    # <a, d#4> of the redistribution ligated to 6 (Lean: C04_ligcomp_fail_flagged)
+    "ligcomp-concat": ({"num_glyphs": 7, "cmap": {0x61: 1, 0x62: 2, 0x63: 3, 0x64: 4},
+                        "gdef": {"classes": {1: 1, 2: 1, 3: 1, 4: 3, 5: 2, 6: 1}},
+                        "gsub": {"features": [{"tag": "ccmp", "lookups": [0, 1]}], "lookups": [
+        {"type": 4, "flag": 8, "subtables": [{"coverage": [2], "ligsets": [[{"components": [3], "glyph": 5}]]}]},
+        {"type": 4, "flag": 4, "subtables": [{"coverage": [1], "ligsets": [[{"components": [4], "glyph": 6}]]}]}]}}, "abdcd"),
 }
 
 
@@ -1096,7 +1105,7 @@ def witness_groups(prefix="W"):
         c.name, c.font, c.index, c.text = fid, f"synthetic:{fid}", 0, ""
         c.dir, c.script, c.lang, c.flags, c.level, c.feats = None, "Latn", None, 0, 0, []
         c.pre, c.post, c.extra, c.opts = "", "", [], ""
-        g = {"fid": fid, "reg": f"font {fid} {fontbuild.hexfont(rec)}", "cases": [c], "alphabet": list("abc"), "aat": False,
+        g = {"fid": fid, "reg": f"font {fid} {fontbuild.hexfont(rec)}", "cases": [c], "alphabet": sorted(chr(cp) for cp in rec["cmap"]), "aat": False,
              "synthetic": True, "profile": "witness:" + cls, "recipe": rec, "witness_text": text}
         g.update(recipe_traits(rec))
         groups.append(g)
